@@ -207,8 +207,15 @@ def run_c21(ctx, pid):
         lambda: _gen(ctx, "Sim_Router.cfg", "Gen_Router", simulate="num=%d" % (60 if q else 1200)),
         lambda: _gen(ctx, "Gen_RingSys%s.cfg" % t, "Gen_RingSys"),
         lambda: _gen(ctx, "Sim_RingSys.cfg", "Gen_RingSys", simulate="num=%d" % (20 if q else 500)),
-    ], workers=2 if q else 3)
-    bfs, sim, rg, srg = gens
+        # pools of 9..12 routees (the routee names cross the one-digit / two-digit boundary) with sends and resizes by one
+        lambda: _gen(ctx, "Gen_Router_big.cfg", "Gen_Router") +
+        ([] if q else _gen(ctx, "Sim_Router_big.cfg", "Gen_Router", simulate="num=300")),
+    ], workers=3)
+    bfs, sim, rg, srg, big = gens
+    # concretisation of the big-pool histories: every Send stands for a burst of 13 routed messages (more than one full cycle)
+    big = [[b[0]] + [dict(o, rep=13) if o["op"] == "Send" else o for o in b[1:]] for b in _dedupe(big, rfields)]
+    if len(big) < 100:
+        raise vlib.Infra("big-pool behaviour generation produced too little (%d)" % len(big))
     bfs = _dedupe(bfs, rfields)
     rr = [b for b in bfs if b[0]["strategy"] == "rr"]
     fo = [b for b in bfs if b[0]["strategy"] in ("fanout", "random")]
@@ -239,13 +246,13 @@ def run_c21(ctx, pid):
             rg, sampled = ctx.rng.sample(rg, 3000), True
     longs = [_router_long(3, 3000, 8000)] if q else [_router_long(3, 30000, 80000), _router_long(4, 5, 20000), _router_long(2, 10001, 30000)]
     dflt = [_with_default_hasher(b) for b in shs] + [_with_default_hasher(b, vn=3) for b in shs[: len(shs) // 2]]
-    router_b = rr + fo + hs + srr + shs + sfo + longs + dflt
+    router_b = rr + fo + hs + srr + shs + sfo + longs + dflt + big
     ring_b = rg + srg + [_with_default_hasher(b) for b in srg] + [_with_default_hasher(b, vn=1) for b in srg]
     rb, gb = ctx.tmp("router-behaviours.ndjson"), ctx.tmp("ring-behaviours.ndjson")
     vlib.write_ndjson(rb, router_b)
     vlib.write_ndjson(gb, ring_b)
-    ctx.log("behaviours: router %d rr + %d fanout/random + %d hash (BFS%s) + %d random walks + %d long + %d default-hasher; ring %d BFS + %d walks (x3 hashers)"
-            % (len(rr), len(fo), len(hs), ", sampled" if sampled else "", len(srr) + len(shs) + len(sfo), len(longs), len(dflt), len(rg), len(srg)))
+    ctx.log("behaviours: router %d rr + %d fanout/random + %d hash (BFS%s) + %d random walks + %d long + %d default-hasher + %d big-pool (9..12 routees); ring %d BFS + %d walks (x3 hashers)"
+            % (len(rr), len(fo), len(hs), ", sampled" if sampled else "", len(srr) + len(shs) + len(sfo), len(longs), len(dflt), len(big), len(rg), len(srg)))
 
     # 3. replay on a real actor system (router + recording routees) and on the real ring
     exe = ctx.build("routing")
@@ -277,7 +284,8 @@ def run_c21(ctx, pid):
         "samples": [rr[len(rr) // 2], hs[len(hs) // 2], srr[0][:14], rg[len(rg) // 2]],
         "evaluations": len(router_b) + len(ring_b), "distinct_nontrivial": nt,
         "rule": "router: every history of the stated depth over {Send(key), Die(r), Fail(r), Adjust(+-d), GetRoutees} per strategy (TLC BFS at the real "
-                "counter width, round-robin counter preset to 2^32-k%s), TLC random walks of depth 20-30, long round-robin runs across the wrap, and the hash "
+                "counter width, round-robin counter preset to 2^32-k%s), TLC random walks of depth 20-30, long round-robin runs across the wrap, round-robin "
+                "histories over {Send x13, Adjust(+-1)} on pools of 9..12 routees (names cross the decimal-width boundary), and the hash "
                 "walks repeated with the default xxh3 hasher; ring: every set/lookup history of the stated depth plus random walks, each with the "
                 "table hasher and the default hasher. Non-trivial = round-robin history that crosses the uint32 wrap or mixes sends with membership "
                 "changes; other strategies: a send plus a routee death/failure/pool adjustment; ring: at least two set calls"
@@ -293,7 +301,7 @@ def run_c21(ctx, pid):
                    "removed from the actor tree) before the next one: routee deaths racing an in-flight message are not explored",
                    "tiny hash spaces are injected through the public WithConsistentHashHasher option (table hasher); with the default xxh3 hasher "
                    "only the monitor applies (ownership is not computable in the model)",
-                   "pool sizes <= 4 (routee order by index equals order by name)"]
+                   "pool sizes <= 4 for the exhaustive histories; pools of 9..13 routees (two-digit routee names) for round-robin/fan-out/random with sends and resizes by one"]
     if rm or gm:
         which, trace, mism = ("router", rtrace, rm) if rm else ("ring", gtrace, gm)
         rows = vlib.read_ndjson(trace)
